@@ -120,6 +120,15 @@ def idx_sx(case):
     return ['sel', list(sel)]
 
 
+def reinterpreted_by_as_matrix3(case):
+    """Matrix3 *= / /= <Qube that is not a matrix>: Matrix3.as_matrix3 re-reads the operand's raw value array as 3x3
+    matrices (and converts Quaternions), so "shape" and "numerator" of the operand are not what the descriptor says;
+    this conversion is a constructor matter, neither modelled nor judged"""
+    a = case.get('arg')
+    return (case['mut'] in ('imul', 'itruediv') and case['target']['cls'] == 'Matrix3' and a is not None
+            and a.get('t') == 'q' and a['cls'] not in ('Matrix', 'Matrix3'))
+
+
 def request(case):
     mut, t, a = case['mut'], case['target'], case.get('arg')
     if mut not in MODELLED:
@@ -128,6 +137,8 @@ def request(case):
     if ov is None:
         ov = (mut == 'insert_deriv')          # the default of override= is True for insert_deriv, False elsewhere
     if mut in G.ARITH or mut in G.LOGIC:
+        if reinterpreted_by_as_matrix3(case):
+            return None
         if a['t'] in ('num', 'nd') and mut in ('iadd', 'isub') and (G.CLS[t['cls']][0] != 0 or t['denom']):
             return None            # as_this_type of a bare number/array for item-shaped targets: not modelled
         return ['c19', mut, obj_sx(t), arg_sx(a)]
@@ -179,6 +190,8 @@ def must_reject(case):
     mut, fl, a = case['mut'], case['faults'], case.get('arg')
     if mut == 'setitem' and 'index' not in fl and idx_sx(case) == ['nothing']:
         return ['ro'] if 'ro' in fl else []         # nothing is selected: the operand is never looked at
+    if reinterpreted_by_as_matrix3(case):
+        return ['ro'] if 'ro' in fl else []
     res = []
     typed = 'type' in fl
     for f in fl:
